@@ -668,7 +668,7 @@ def snapshot_canon(data_only=False):
                         continue
                     fn = av.__func__ if isinstance(av, (classmethod, staticmethod)) else av
                     if isinstance(fn, types.FunctionType):
-                        out["%s:%s.%s" % (mn, name, an)] = [
+                        out["%s:%s.%s()" % (mn, name, an)] = [
                             type(av).__name__, _canon_func(fn, 0, set(), with_state=False)]
                         st = _canon_func(fn, 0, set())[4:]
                         if st:
@@ -690,7 +690,10 @@ def snapshot_canon(data_only=False):
                 # code under the function's own key; mutable state a function can
                 # carry (default arguments, closure cells: the classic memo-in-a-
                 # default-argument) under an internal key - its changes are probes
-                out["%s:%s" % (mn, name)] = _canon_func(v, 0, set(), with_state=False)
+                # (keys of code end in "()": a name re-bound to other *code* - a function
+                #  that specialises itself on first use - is a probe; what the new code
+                #  returns is judged by H3.  Re-binding to a non-function removes the key.)
+                out["%s:%s()" % (mn, name)] = _canon_func(v, 0, set(), with_state=False)
                 st = _canon_func(v, 0, set())[4:]
                 if st:
                     out["%s:%s.__state__" % (mn, name)] = st
@@ -741,6 +744,8 @@ def diff_snapshots(base, cur, base_slots):
                 probes.append((k, "slot-filled"))
             elif key_is_internal(k):
                 probes.append((k, "internal-changed"))
+            elif k.endswith("()"):
+                probes.append((k, "code-rebound"))
             elif k.startswith("py_ecc:") and k.split(":", 1)[1] in (
                     "bls", "bls12_381", "bn128", "optimized_bls12_381",
                     "optimized_bn128", "secp256k1"):
